@@ -39,6 +39,21 @@ static std::vector<Scenario> scenarios() {
   v.push_back({"parse-sparse-codes", 3, lst, {1000, 20001, 1000, 1000, 20001}, F(1, 0, 0, 1, 2), 0, 0});
   v.push_back({"parse-invalid-token", 3, etf, {'a', 'z'}, F(1, 1, 0, 1, 3), 0, 0});
   v.push_back({"parse-empty-input", 3, "S : A A # s (0 1) ; A : 'a' # 0 | # - ;", {}, F(1, 0, 0, 1, 3), 0, 0});
+  // scenarios in which vectors grow (yaep_realloc): many symbols, many rules, a long input
+  {
+    std::string big = "TERM";
+    for (int i = 0; i < 80; i++) big += " t" + std::to_string(i) + " = " + std::to_string(500 + i);
+    big += ";\nS : S X # l (0 1) | X # 0 ;\nX :";
+    for (int i = 0; i < 80; i++) big += std::string(i ? " |" : "") + " t" + std::to_string(i) + " # 0";
+    big += " ;\n";
+    v.push_back({"define-callbacks-80-terminals", 2, big, {}, Flags(), 0, 1});
+    std::string many = "TERM;\n";
+    for (int i = 0; i < 20; i++) many += "N" + std::to_string(i) + " : 'a' N" + std::to_string(i + 1) + " 'b' # n" + std::to_string(i) + " (0 1 2) | 'c' # 0 ;\n";
+    many += "N20 : 'd' # 0 ;\n";
+    v.push_back({"define-text-41-rules", 1, many, {}, Flags(), 0, 1});
+    std::vector<int> longin; longin.push_back('x'); for (int i = 0; i < 6000; i++) { longin.push_back(','); longin.push_back('x'); }
+    v.push_back({"parse-12001-tokens", 3, "L : L ',' 'x' # c (0 2) | 'x' # 0 ;", longin, F(1, 1, 0, 1, 3), 0, 0});
+  }
   return v;
 }
 
